@@ -127,7 +127,9 @@ def option_exhaustive(ctx):
         ctx.ob(R, f.fq + '|unknown-option-raises', chain_else, f.node,
                'unknown option types are silently ignored')
         ctx.ob(R, f.fq + '|strings-pass-through',
-               any('stringy_types' in unparse(n) for n in ast.walk(f.node)
+               any('stringy_types' in unparse(n)
+                   for g in F.reach(f, 1) if g.cls is f.cls
+                   for n in ast.walk(g.node)
                    if isinstance(n, ast.Call) and unparse(n.func) ==
                    'isinstance'), f.node, 'raw string options are dropped')
     # each isinstance branch that is not an explicit `pass` emits something
